@@ -39,6 +39,8 @@ pub struct ServerOpts {
     pub check_point_interval: u64,
     /// enforce the request limits of ckb (`Err` when exceeded)
     pub enforce_limits: bool,
+    /// filters per `BlockFilters` answer (ckb: at most 1000, fewer when the message gets large)
+    pub filters_batch: u64,
 }
 
 impl Default for ServerOpts {
@@ -47,6 +49,7 @@ impl Default for ServerOpts {
             v1: false,
             check_point_interval: crate::protocols::CHECK_POINT_INTERVAL,
             enforce_limits: true,
+            filters_batch: BLOCK_FILTERS_BATCH,
         }
     }
 }
@@ -497,12 +500,20 @@ pub fn get_block_filters(
     chain: &SimChain,
     req: &packed::GetBlockFilters,
 ) -> Option<packed::BlockFilters> {
+    get_block_filters_batch(chain, req, BLOCK_FILTERS_BATCH)
+}
+
+pub fn get_block_filters_batch(
+    chain: &SimChain,
+    req: &packed::GetBlockFilters,
+    batch: u64,
+) -> Option<packed::BlockFilters> {
     let start_number: u64 = req.start_number().unpack();
     let tip = chain.tip_number();
     if tip < start_number {
         return None;
     }
-    let end = std::cmp::min(tip, start_number.saturating_add(BLOCK_FILTERS_BATCH - 1));
+    let end = std::cmp::min(tip, start_number.saturating_add(batch.max(1) - 1));
     let block_hashes: Vec<Byte32> = (start_number..=end)
         .map(|n| chain.block(n).hash())
         .collect();
@@ -633,7 +644,7 @@ pub fn handle(
             .to_enum();
         let reply = match msg {
             packed::BlockFilterMessageUnionReader::GetBlockFilters(r) => {
-                get_block_filters(chain, &r.to_entity()).map(filter_message)
+                get_block_filters_batch(chain, &r.to_entity(), opts.filters_batch).map(filter_message)
             }
             packed::BlockFilterMessageUnionReader::GetBlockFilterHashes(r) => {
                 get_block_filter_hashes(chain, &r.to_entity()).map(filter_message)
